@@ -330,6 +330,42 @@ static std::string do_write_late_config(const std::string & line) {
     return out;
 }
 
+// FC <cs1> <cs2> <n1> <n2> : a write session in which the default container size is changed from cs1 to cs2 after n1 of
+// n1+n2 CAN messages; then the file is read back.  Prints the number of objects read back.
+static std::string do_write_resize(const std::string & line) {
+    std::istringstream ss(line);
+    std::string cmd;
+    long cs1 = 4096, cs2 = 512, n1 = 10, n2 = 10;
+    ss >> cmd >> cs1 >> cs2 >> n1 >> n2;
+    std::string path = g_tmp + ".c.blf";
+    {
+        File f;
+        f.setDefaultLogContainerSize(static_cast<uint32_t>(cs1));
+        f.open(path.c_str(), std::ios_base::out);
+        if (!f.is_open()) return "FC err open";
+        for (long i = 0; i < n1; i++) { auto * o = new CanMessage; o->id = static_cast<uint32_t>(i); f.write(o); g_progress++; }
+        f.setDefaultLogContainerSize(static_cast<uint32_t>(cs2));
+        for (long i = 0; i < n2; i++) { auto * o = new CanMessage; o->id = static_cast<uint32_t>(n1 + i); f.write(o); g_progress++; }
+        f.close();
+    }
+    long n = 0;
+    bool inorder = true;
+    {
+        File f;
+        f.open(path.c_str(), std::ios_base::in);
+        while (ObjectHeaderBase * o = f.read()) {
+            CanMessage * m = dynamic_cast<CanMessage *>(o);
+            if (!m || m->id != static_cast<uint32_t>(n)) inorder = false;
+            delete o;
+            n++;
+            g_progress++;
+        }
+        f.close();
+    }
+    std::remove(path.c_str());
+    return "FC ok n=" + std::to_string(n) + " inorder=" + (inorder ? "1" : "0");
+}
+
 // FE <reads> <sleep_ms> <mode> <hex> : read `reads` objects (all if < 0), pause, then close (0) / destroy (1) /
 // close twice then destroy (2).  Prints objects read, flags, and the change in live allocations over the session.
 static std::string do_read_early(const std::string & line) {
@@ -566,6 +602,7 @@ int main(int argc, char ** argv) {
             else if (line.compare(0, 3, "FH ") == 0) r = do_history(line);
             else if (line.compare(0, 3, "FN ") == 0) r = do_memory_write(line);
             else if (line.compare(0, 3, "FT ") == 0) r = do_tsan(line);
+            else if (line.compare(0, 3, "FC ") == 0) r = do_write_resize(line);
             else if (line.compare(0, 3, "FL ") == 0) r = do_write_late_config(line);
             else if (line.compare(0, 3, "FU ") == 0) r = do_memory_file(line);
             else r = "? bad case";
